@@ -41,7 +41,7 @@ func dottedNames(maxSegs int) []string {
 func randName(r *Rand) string {
 	n := 1 + r.Intn(6)
 	segs := make([]string, n)
-	pool := []string{"a", "b", "*", "", "users", "read", "ab", "**", "a*", "x"}
+	pool := []string{"a", "b", "*", "", "users", "read", "ab", "**", "a*", "x", "A", "Users", "READ"}
 	for i := range segs {
 		segs[i] = pool[r.Intn(len(pool))]
 	}
@@ -99,6 +99,23 @@ func ScopeCases(e *Emitter, r *Rand, tier string) {
 	if tier == "thorough" {
 		small = dottedNames(3)
 	}
+	// letter case: a registered name against the same name in another case, both ways round, alone and behind another matcher
+	for st := range strategies {
+		for _, m := range names {
+			if up := strings.ToUpper(m); up != m {
+				emit(st, []string{m}, up)
+				emit(st, []string{up}, m)
+				emit(st, []string{"b", up}, m)
+				emit(st, []string{up}, up)
+			}
+		}
+		for _, m := range []string{"users.read", "users.*", "photos", "openid", "offline_access"} {
+			for _, n := range []string{strings.ToUpper(m), strings.ToUpper(m[:1]) + m[1:], m, m + " ", " " + m} {
+				emit(st, []string{m}, n)
+				emit(st, []string{n}, m)
+			}
+		}
+	}
 	// two matchers: exhaustive over the small set for the needle too
 	for st := range strategies {
 		for i, m1 := range small {
@@ -132,6 +149,9 @@ func ScopeCases(e *Emitter, r *Rand, tier string) {
 				needle = strings.Replace(needle, "*", "zz", 1)
 			case 2:
 				needle = strings.Replace(needle, "*", "", 1)
+			}
+			if r.Intn(6) == 0 {
+				needle = strings.ToUpper(needle)
 			}
 		}
 		emit(r.Intn(3), hay, needle)
